@@ -31,7 +31,7 @@ NOT_DECIDED = ("'declares at least as many variables as the formula uses': _num_
 def sampling_set_lines(ctx, rule="C27.sampling-set"):
     f = ctx.fn("cnf:CNF.as_unigen_string")
     F = Facts(f)
-    fact(ctx, rule, f, "chunks", F.assigns("support_chunks"), ["[[_b1 for _b1 in support_set[_b0:10 + _b0]] for _b0 in range(0, len(support_set), 10)]"],
+    fact(ctx, rule, f, "chunks", F.assigns("support_chunks"), ["[[_b1 for _b1 in ite((support_set_length is not None), [Var(_b0) for _b0 in range(1, 1 + support_set_length)], ite((sampled_variables is not None), sampled_variables, []))[_b0:10 + _b0]] for _b0 in range(0, len(ite((support_set_length is not None), [Var(_b0) for _b0 in range(1, 1 + support_set_length)], ite((sampled_variables is not None), sampled_variables, []))), 10)]"],
          "the sampling set is split into consecutive chunks of ten covering the whole list")
     st = [s for s in F.stmts if isinstance(s, ast.Assign) and dotted(s.targets[0]) == "support_string"]
     ctx.require(len(st) == 1, "as_unigen_string: support_string not found")
